@@ -1,4 +1,4 @@
-\* Measured: 13 configurations (<= 9 units): 585 019 distinct states, depth 2, ~3 min on 6 workers.
+\* Measured: 13 configurations (<= 9 units), validator sessions of <= 3 deliveries: 821 121 distinct / 7 778 819 generated states, depth 4, ~6 min on 6 workers (with coverage).
 \* the repaired design: every property holds
 CONSTANTS
   Configs <- AllConfigs
